@@ -9,6 +9,18 @@ PY = '/venv/bin/python harness/vcheck.py'
 
 # property id -> (technique, level text, level note, design ref)
 CHECKS = {
+    'C01': ('Lean 4 theorems over the shared constraint model + model/implementation correspondence',
+            'Kernel-checked theorems: discovery never fails on a well-typed column (zero rows, all-null, ... included); '
+            'every constraint discovered from a well-typed column is reported satisfied when that column is verified, '
+            'for every epsilon >= 0, strict or sloppy typing, verification or detection mode, with rexpy entering '
+            'through the hypothesis RexSound (what C03 establishes); for a frame of columns with distinct names the '
+            'verification of its own constraints has 0 failures, every constraint passes and detection flags no '
+            'record. Built on the C07 exactness lemmas and C02 verify_eq_spec. The model is tied to the code through '
+            'the discover / calc / verify ops; the closure itself is exercised on the public API over 16 combinations '
+            '(rex x dict/.tdda file x verify/detect x repair) per generated frame.',
+            'Trusted: Lean kernel; pandas / numpy internals, float rounding and the .tdda file leg (C09) are outside '
+            'the model. Three known findings (timezone-aware columns).',
+            'DESIGN.md 4 C01'),
     'C02': ('Lean 4 theorems over the shared constraint model + model/implementation correspondence',
             'Kernel-checked theorem verify_eq_spec: on every well-typed column, for every constraint kind, precision, '
             'epsilon, strict or sloppy typing, in verification or detection mode, the model of the verifier returns '
@@ -34,6 +46,18 @@ CHECKS = {
             'Trusted: Lean kernel; CPython re enters as the table of re.match results; file decoding. Two known '
             'findings (trailing empty line normalisation).',
             'DESIGN.md 4 C04'),
+    'C06': ('Lean 4 theorems over the shared constraint model + model/implementation correspondence',
+            'Kernel-checked theorems over the model of the detect_* record predicates and the failure counting: '
+            'constraint verdicts under detection equal plain verification; for record-wise kinds (min, max, lengths, '
+            'sign, allowed values, rex) a null record is flagged null and a non-null record is flagged true exactly '
+            'when it meets the documented meaning on its own; type failures and wrong-typed bounds flag every record; '
+            'a null-count failure flags exactly the null records; a duplicates failure every member of a duplicated '
+            'group; each record\'s failure count is its number of false flags; passing + failing = rows. Tied to the '
+            'code by the cx.detect op (flags, n_failures, counts per column); output rows, files (absent / stale), '
+            'input-unchanged and option handling are decided by the oracle.',
+            'Trusted: Lean kernel; pandas column operations and CSV / parquet writers not modelled. Three known '
+            'findings (date objects, float32 bound rounding).',
+            'DESIGN.md 4 C06'),
     'C07': ('Lean 4 theorems over the shared constraint model + model/implementation correspondence',
             'Kernel-checked theorems over the model of discover_field_constraints for every well-typed column: type is '
             'the column type; min / max are attained by a record and extremal; min / max length attained and extremal '
